@@ -282,7 +282,7 @@ func c20TopFunc(stack string) string {
 func TestVerifC20(t *testing.T) {
 	rec := vlib.Open("C20")
 	defer rec.Close()
-	total := vlib.Scale(160, 4000)
+	total := vlib.Scale(480, 6000)
 	if s := envIntDefault("VERIF_C20_CASES", 0); s > 0 {
 		total = s
 	}
@@ -310,7 +310,16 @@ func c20History(t *testing.T, rec *vlib.Rec, idx int) {
 	ysig, ycount, yun := simInstallYield(r.Uint64(), true)
 	defer yun()
 
+	// graceful restart / long-lived graceful restart on some peers, with restart times of a few (virtual)
+	// seconds so that the restart timer, the LLGR timers and their expiry fall inside the history (ticks,
+	// re-establishment back-off) and management operations hit peers in every GR phase. Drawn from a
+	// stream of its own: the rest of the history is what it was without GR.
+	gr := vlib.CaseRand("c20gr", idx)
 	for _, ps := range c01GenPeers(r) {
+		if gr.IntN(2) == 0 {
+			ps = c20WithGR(ps, gr)
+			rec.Count("peers_with_graceful_restart", 1)
+		}
 		sp, err := n.addPeer(ps)
 		if err != nil {
 			rec.Inconclusive("c20: AddPeer: " + err.Error())
@@ -376,7 +385,14 @@ func c20History(t *testing.T, rec *vlib.Rec, idx int) {
 	c.wg.Wait()
 	rec.Count("api_calls_completed", len(c.ops))
 
-	// ---- shutdown oracle
+	// ---- shutdown oracle (reached with peers in every graceful-restart phase: some histories let the
+	// restart / LLGR timers run out first, some shut down while they are armed)
+	c20CountRestarting(n, rec, "before_timers_ran")
+	if w := gr.IntN(3); w > 0 {
+		time.Sleep(time.Duration(w*w) * 3 * time.Second)
+		synctest.Wait()
+		c20CountRestarting(n, rec, "after_timers_ran")
+	}
 	if r.IntN(2) == 0 {
 		for _, p := range h.peers {
 			n.s.DeletePeer(c20Bg, &api.DeletePeerRequest{Address: p.spec.Addr})
@@ -433,6 +449,54 @@ func c20History(t *testing.T, rec *vlib.Rec, idx int) {
 		}
 		rec.Sample(map[string]any{"case": idx, "events": h.events, "mgmt_ops": kinds, "overlapping_op_kinds": ov, "interleaving_signature": fmt.Sprintf("%x", ysig()), "gomaxprocs": runtime.GOMAXPROCS(0)})
 	}
+}
+
+// c20WithGR enables graceful restart (helper role) and, in half of the cases, long-lived graceful
+// restart for the peer, on gobgp's side and in the scripted speaker's OPEN.
+func c20WithGR(ps simPeerSpec, r *rand.Rand) simPeerSpec {
+	restart := uint32(1 + r.IntN(4))
+	llgr := r.IntN(2) == 0
+	llTime := uint32(1 + r.IntN(5))
+	notif := r.IntN(2) == 0
+	fams := ps.families()
+	prevExtra, prevMod := ps.Extra, ps.SpeakerMod
+	ps.Extra = func(p *api.Peer) {
+		if prevExtra != nil {
+			prevExtra(p)
+		}
+		p.GracefulRestart = &api.GracefulRestart{Enabled: true, RestartTime: restart, NotificationEnabled: notif, LonglivedEnabled: llgr}
+		for _, af := range p.AfiSafis {
+			af.MpGracefulRestart = &api.MpGracefulRestart{Config: &api.MpGracefulRestartConfig{Enabled: true}}
+			if llgr {
+				af.LongLivedGracefulRestart = &api.LongLivedGracefulRestart{Config: &api.LongLivedGracefulRestartConfig{Enabled: true, RestartTime: llTime}}
+			}
+		}
+	}
+	ps.SpeakerMod = func(c *simSpeakerConf) {
+		if prevMod != nil {
+			prevMod(c)
+		}
+		var gt []*bgp.CapGracefulRestartTuple
+		var lt []*bgp.CapLongLivedGracefulRestartTuple
+		for _, f := range fams {
+			gt = append(gt, bgp.NewCapGracefulRestartTuple(f, true))
+			lt = append(lt, bgp.NewCapLongLivedGracefulRestartTuple(f, true, llTime))
+		}
+		c.ExtraCaps = append(c.ExtraCaps, bgp.NewCapGracefulRestart(false, notif, uint16(restart), gt))
+		if llgr {
+			c.ExtraCaps = append(c.ExtraCaps, bgp.NewCapLongLivedGracefulRestart(lt))
+		}
+	}
+	return ps
+}
+
+// c20CountRestarting records (coverage only) how many peers gobgp holds in the graceful-restart helper state.
+func c20CountRestarting(n *simNet, rec *vlib.Rec, when string) {
+	n.s.ListPeer(c20Bg, &api.ListPeerRequest{}, func(p *api.Peer) {
+		if g := p.GetGracefulRestart(); g != nil && g.PeerRestarting {
+			rec.Count("peers_in_restarting_state_"+when, 1)
+		}
+	})
 }
 
 func b2i(b bool) int {
